@@ -234,6 +234,12 @@ def physStep (op : String) (a : List String) : String :=
     match parseVRes root, parseVRes hier with
     | some r, some h => s!"ok {Cli.validateRepoExit (csv se) [] r h (rs.map parseVRes)}"
     | _, _ => "bad-arg"
+  -- script-vprint <info|warn|error> <number of errors> <number of warnings>: is the object's result printed
+  | "script-vprint", [lvl, ne, nw] =>
+    match (match lvl with | "info" => some Cli.Level.info | "warn" => some Cli.Level.warn | "error" => some Cli.Level.error | _ => none), ne.toNat?, nw.toNat? with
+    | some l, some e, some w =>
+      s!"ok {Cli.shouldPrint l { errors := List.replicate e ['E'], warnings := List.replicate w ['W'] }}"
+    | _, _, _ => "bad-arg"
   -- script-lscontents <0|1 logical dirs> <path query|-> <logical path>*: what `ls <object> [<path>]` prints
   | "script-lscontents", dm :: q :: ps =>
     match (if q == "-" then some none else (decodeArg q).map some), ps.mapM decodeArg with
